@@ -1027,6 +1027,79 @@ def check_reassign_plain(rep):
                                  'a fresh record gives %s' % (fname, seconds[field], field, got, want), case)
 
 
+def check_nested_choice_by_type(rep, rng, n):
+    """tag-addressed assignment reaches a leaf through any depth of untagged CHOICE alternatives (innerFlag=True): a CHOICE of
+    CHOICEs refines a one-entry dict whose key path is the unique path to the leaf with that tag. After every assignment: the
+    selected names at every level, exactly one alternative per level, the leaf, isValue, getName/getComponent(innerFlag=True)
+    and the DER octets (an untagged CHOICE encodes as its leaf) against a model kept in plain Python."""
+    from pyasn1.type import univ as U, namedtype as NT, char as CH
+    from pyasn1.codec.der import encoder as der_enc
+
+    def choice(*fields):
+        return U.Choice(componentType=NT.NamedTypes(*[NT.NamedType(nm, ty) for nm, ty in fields]))
+    leaves = {'i': (U.Integer, [0, 5, -2, 300]), 'b': (U.Boolean, [True, False]), 'o': (U.OctetString, [b'', b'x', b'yz']),
+              'n': (U.Null, [b'']), 'u': (CH.UTF8String, [u'', u'h\xe9'])}
+
+    def build(depth):
+        # depth levels of untagged CHOICE; leaf types spread over the levels: level k holds one leaf and (below the
+        # last level) the next CHOICE; returns (schema, {leafkey: path})
+        order = ['o', 'u', 'b', 'n']
+        paths = {}
+
+        def level(k, prefix):
+            fields = [('l%d' % k, leaves[order[k]][0]())]
+            paths[order[k]] = prefix + ('l%d' % k,)
+            if k + 1 < depth:
+                fields.append(('c%d' % k, level(k + 1, prefix + ('c%d' % k,))))
+            else:
+                fields.append(('i%d' % k, U.Integer()))
+                paths['i'] = prefix + ('i%d' % k,)
+            return choice(*fields)
+        return level(0, ()), paths
+
+    def observe(obj):
+        path, lvl = [], obj
+        while isinstance(lvl, U.Choice):
+            names = list(lvl)
+            if len(lvl) != 1 or len(names) != 1:
+                return tuple(path), None, 'level %r holds %d alternatives %r' % (tuple(path), len(lvl), names)
+            path.append(names[0])
+            lvl = lvl.getComponent()
+        return tuple(path), lvl, None
+    for depth in (1, 2, 3, 4):
+        schema, paths = build(depth)
+        for run in range(n):
+            rep.evaluations += 1
+            rep.count('nested-choice-by-type')
+            rep.count('nested-choice depth %d' % depth)
+            obj = schema.clone()
+            hist = []
+            for step in range(rng.randrange(1, 7)):
+                key = rng.choice(sorted(paths))
+                cls, vals = leaves[key]
+                v = rng.choice(vals)
+                as_obj = rng.random() < 0.4
+                hist.append((key, repr(v), as_obj))
+                case = {'kind': 'nested-choice-by-type', 'depth': depth, 'history': hist}
+                want_der = bytes(der_enc.encode(cls(v))).hex()
+                try:
+                    obj.setComponentByType(cls.tagSet, cls(v) if as_obj else v, innerFlag=True)
+                    path, leaf, problem = observe(obj)
+                    if problem:
+                        rep.fail('choice-more-than-one', problem, case)
+                        break
+                    got = (path, type(leaf).__name__, obj.isValue, obj.getName(innerFlag=True),
+                           bytes(der_enc.encode(obj.getComponent(innerFlag=True))).hex(), bytes(der_enc.encode(obj)).hex(),
+                           bytes(der_enc.encode(obj.getComponentByType(cls.tagSet, innerFlag=True))).hex())
+                except Exception as e:  # noqa
+                    got = 'ERR %s: %s' % (type(e).__name__, str(e)[:80])
+                want = (paths[key], cls.__name__, True, paths[key][-1], want_der, want_der, want_der)
+                if got != want:
+                    rep.fail('tag-addressed-assignment', 'setComponentByType(%s.tagSet, %r, innerFlag=True) on a CHOICE nested %d deep after %r: '
+                             'object reads %r, the one-entry model %r' % (cls.__name__, v, depth, hist[:-1], got, want), case)
+                    break
+
+
 def check_sort_variants(rep, rng, n):
     """sort(key=..., reverse=...) behaves as the list method of the same name does (a stable sort, also when reversed):
     SEQUENCE OF / SET OF of INTEGER against a Python list of the same integers, keys with many ties"""
@@ -1084,6 +1157,7 @@ def run(rep, tier, seed):
     check_sort_variants(rep, common.rng_for(seed, 'C19', 'sort'), 400 if quick else 20000)
     check_reads_constrained(rep)
     check_reassign_plain(rep)
+    check_nested_choice_by_type(rep, common.rng_for(seed, 'C19', 'choice-by-type'), 40 if quick else 2000)
     rep.case('nested collections', nontrivial=True)
     check_nested_collections(rep, common.rng_for(seed, 'C19', 'nested'), 25 if quick else 1500)
     # corpus first
